@@ -83,7 +83,7 @@ def zero_paths(ctx, world):
     r, syms, m, node, sc = eval_function(world, CORE, "make_vjp")
     loc = loc_of(m, node)
     q = "autograd.core.make_vjp"
-    x, fun = syms["x"], syms["fun"]
+    x, fun = syms["#1"], syms["#0"]
     r = unseq(expand(ev, r, KEEP))
     tr = [t for t in walk(r) if is_call_to(t, "autograd.tracer.trace")]
     if not tr:
@@ -132,7 +132,7 @@ def zero_paths(ctx, world):
     loc = loc_of(m, node)
     q = "autograd.core.make_jvp"
     r = unseq(expand(ev, r, KEEP))
-    g = syms["g"]
+    g = syms["#0"]
     tr = [t for t in walk(r) if is_call_to(t, "autograd.tracer.trace")]
     if not tr:
         raise AnalysisError("make_jvp no longer calls trace()")
@@ -165,7 +165,7 @@ def zero_paths(ctx, world):
         r, syms, m, node, sc = eval_function(world, CORE, f"translate_{which}")
         loc = loc_of(m, node)
         r = unseq(expand(ev, r, KEEP))
-        argnum, fun, rf = syms["argnum"], syms["fun"], syms[f"{which}fun"]
+        argnum, fun, rf = syms["#2"], syms["#1"], syms["#0"]
         is_none_a = lambda a: a.op == "cmp" and a.opname in ("Is", "Eq") and ((a.l is rf and _is_none(a.r)) or (a.r is rf and _is_none(a.l)))
         is_same_a = lambda a: a.op == "cmp" and a.opname == "Eq" and ((a.l is rf and a.r.op == "const" and a.r.value == "same") or (a.r is rf and a.l.op == "const" and a.l.value == "same"))
         is_call_a = lambda a: is_call_to(a, "builtins.callable") and len(a.args) == 1 and a.args[0] is rf
@@ -230,12 +230,12 @@ def zero_paths(ctx, world):
     r2, syms2, m, node, sc2 = eval_function(world, CORE, "def_linear")
     ok = False
     regs = [t for e in sc2.effects for t in walk(e) if is_call_to(t, "autograd.core.defjvp_argnum")]
-    if len(regs) == 1 and len(regs[0].args) == 2 and regs[0].args[0] is syms2["fun"]:
+    if len(regs) == 1 and len(regs[0].args) == 2 and regs[0].args[0] is syms2["#0"]:
         clo, pre, prekw = ev.as_closure(regs[0].args[1])
         if clo is not None and not pre and not prekw:
             an, gs, rest0, kwr = T("sym", name="argnum", role="argnum"), T("sym", name="g", role="g"), T("sym", name="args", role="param"), T("sym", name="kwargs", role="param")
             res = unseq(expand(ev, ev.apply(clo, [an, gs, T("sym", name="ans", role="ans"), rest0, kwr], {}, []), KEEP))
-            ok = _is_same_call(res, syms2["fun"], an, gs, rest0, kwr)
+            ok = _is_same_call(res, syms2["#0"], an, gs, rest0, kwr)
     if ok:
         ctx.ob("A13.align", "def_linear -> fun(*subval(args, argnum, g), **kwargs)", True, loc_of(m, node))
     else:
@@ -335,8 +335,6 @@ def backward_pass(ctx, world):
                 for t in tg:
                     if isinstance(t, ast.Subscript) and isinstance(t.value, ast.Name) and t.value.id == og:
                         other_writes.append(e.node)
-        if len(vjp_calls) != 1:
-            problems.append(f"node.vjp called {len(vjp_calls)} times on a path")
         if other_writes:
             problems.append(f"outgrads written by `{norm_text(other_writes[0])[:60]}`")
         n_ok += 1
@@ -358,6 +356,15 @@ def backward_pass(ctx, world):
         def is_vjp_call(t):
             return t.op == "call" and t.fn.op == "attr" and t.fn.name == "vjp" and elem_of(t.fn.obj, tp) and len(t.args) == 1 and not t.kw
         vcs = [t for t in walk(outer.next) if is_vjp_call(t)]
+        # every node.vjp(...) evaluated in one iteration (also those whose result is discarded)
+        all_vjp = {id(t): t for t in vcs}
+        for e_ in sc.effects:
+            for t in walk(unseq(expand(world.ev, e_, KEEP))):
+                if t.op == "call" and t.fn.op == "attr" and t.fn.name == "vjp" and t.fn.obj.op == "iterelem":
+                    all_vjp.setdefault(id(t), t)
+        sites = {id(t.node) for t in all_vjp.values()}
+        if len(sites) != 1:
+            problems.append(f"node.vjp called {len(sites)} times on a path")
         if vcs and all(is_cot(t.args[0]) for t in vcs):
             ctx.ob("A13.once", "backward_pass: node.vjp receives component 0 of outgrads[node]", True, loc)
         else:
@@ -404,7 +411,7 @@ def ownership(ctx, world):
     r, syms, m, node, sc = eval_function(world, CORE, "add_outgrads")
     loc = loc_of(m, node)
     q = "autograd.core.add_outgrads"
-    prev, g = syms["prev_g_flagged"], syms["g"]
+    prev, g = syms["#0"], syms["#1"]
     n = 0
     is_prev_buf = lambda t: t.op == "sub" and t.obj is prev and t.idx.op == "const" and t.idx.value == 0
     is_prev_flag = lambda t: t.op == "sub" and t.obj is prev and t.idx.op == "const" and t.idx.value == 1
@@ -508,7 +515,7 @@ def ownership(ctx, world):
     for path, label in (("VSpace.mut_add", "mut_add"), ("sparse_add", "sparse_add")):
         r2, s2, m2, n2, sc2 = eval_function(world, CORE, path)
         r2 = strip_seq(r2)
-        xp = s2["x_prev"]
+        xp = s2["#1"]
         okz = False
         for t in walk(r2):
             if t.op == "if" and t.cond.op == "cmp" and t.cond.l is xp and t.cond.r.op == "const" and t.cond.r.value is None:
@@ -522,7 +529,7 @@ def ownership(ctx, world):
 
 # ----------------------------------------------------------------------------------------- purity of VSpace ops / in-place sites
 PURE_METHODS = ("_add", "_scalar_mul", "_covector", "_inner_prod", "zeros", "ones", "standard_basis", "randn")
-FRESH_CALLS = {"zeros", "ones", "empty", "full", "zeros_like", "ones_like", "empty_like", "array", "copy", "arange", "eye", "list", "dict", "set", "tile", "diagonal_fresh"}
+FRESH_CALLS = {"zeros", "ones", "empty", "full", "zeros_like", "ones_like", "empty_like", "array", "copy", "arange", "eye", "list", "dict", "set", "tile", "diagonal_fresh", "OrderedDict", "defaultdict", "deque", "Counter", "bytearray", "frozenset", "tuple"}
 
 
 def _vspace_classes(world):
@@ -850,6 +857,61 @@ def _fresh_expr(world, mod, v, local_defs, params, depth=0):
     return False, f"{type(v).__name__}"
 
 
+def _owned_at_every_call_site(world, mod, fnode, pname, _depth=0):
+    """A private module-level helper may write into a parameter when EVERY call site in the package passes a
+    local of the caller that is freshly allocated there (the caller's own accumulator).  Returns a reason string,
+    or None when some call site passes borrowed memory / the helper has no call site (it is API)."""
+    if _depth > 2 or not isinstance(getattr(fnode, "_parent", None), ast.Module) or not fnode.name.startswith("_"):
+        return None
+    a = fnode.args
+    pos = [p.arg for p in a.posonlyargs + a.args]
+    if pname not in pos:
+        return None
+    idx = pos.index(pname)
+    n_sites = 0
+    for m2 in world.repo.mods.values():
+        for fq2, caller in m2.functions():
+            if isinstance(caller, ast.Lambda):
+                body_nodes = list(ast.walk(caller.body))
+            else:
+                body_nodes = [x for st in caller.body for x in ast.walk(st)]
+            for c in body_nodes:
+                if not isinstance(c, ast.Call) or _encl(c) is not caller:
+                    continue
+                r = world.repo.resolve_expr(m2, c.func) if isinstance(c.func, (ast.Name, ast.Attribute)) else None
+                if r is None or r.kind != "repo" or r.node is not fnode:
+                    continue
+                n_sites += 1
+                argx = c.args[idx] if idx < len(c.args) and not any(isinstance(x, ast.Starred) for x in c.args[: idx + 1]) else next((k.value for k in c.keywords if k.arg == pname), None)
+                if not isinstance(argx, ast.Name) or isinstance(caller, ast.Lambda):
+                    return None
+                cparams = {p.arg for p in caller.args.posonlyargs + caller.args.args + caller.args.kwonlyargs}
+                if caller.args.vararg:
+                    cparams.add(caller.args.vararg.arg)
+                if caller.args.kwarg:
+                    cparams.add(caller.args.kwarg.arg)
+                cdefs = _local_defs_of(caller)
+                if argx.id in cparams:
+                    if not _owned_at_every_call_site(world, m2, caller, argx.id, _depth + 1):
+                        return None
+                    continue
+                if argx.id not in cdefs:
+                    return None
+                for d in cdefs[argx.id]:
+                    ok, _why = _fresh_expr(world, m2, d, cdefs, cparams)
+                    if not ok:
+                        return None
+        # module-level call sites pass module-level objects: never owned by a differentiation
+        for st in ast.walk(m2.tree):
+            if isinstance(st, ast.Call) and _encl(st) is None:
+                r = world.repo.resolve_expr(m2, st.func) if isinstance(st.func, (ast.Name, ast.Attribute)) else None
+                if r is not None and r.kind == "repo" and r.node is fnode:
+                    return None
+    if n_sites == 0:
+        return None
+    return f"accumulator parameter of the private helper {fnode.name}: each of its {n_sites} call site(s) passes a local that is freshly allocated by the caller"
+
+
 def _fresh_at(world, mod, fnode, name, params, local_defs, site, fq):
     last = fq.rsplit(".", 1)[-1]
     # designated accumulators
@@ -864,6 +926,9 @@ def _fresh_at(world, mod, fnode, name, params, local_defs, site, fq):
     if name in params:
         if isinstance(site, ast.AugAssign) and isinstance(site.target, ast.Name) and _int_evidence(fnode, name):
             return True, "augmented assignment to an integer-valued parameter: a rebinding, not a mutation"
+        ok_callers = _owned_at_every_call_site(world, mod, fnode, name)
+        if ok_callers:
+            return True, ok_callers
         return False, "a parameter (borrowed from the caller)"
     if name not in local_defs:
         return False, "a captured or global variable (not allocated by this function)"
@@ -1016,7 +1081,7 @@ def dispatch(ctx, world):
     r, syms, m, node, sc = eval_function(world, CORE, "defvjp.vjp_argnums")
     loc = loc_of(m, node)
     q = "autograd.core.defvjp.vjp_argnums"
-    argnums, ans, args, kw = syms["argnums"], syms["ans"], syms["args"], syms["kwargs"]
+    argnums, ans, args, kw = syms["#0"], syms["#1"], syms["#2"], syms["#3"]
     vd = sc.parent.lookup("vjps_dict")
     g = T("sym", name="g", role="g")
 
@@ -1133,7 +1198,7 @@ def dispatch(ctx, world):
         loc3 = loc_of(m3, node3)
         ok = False
         if kind in ("dict", "maker"):
-            an, gs, a_, ar, kw_ = syms["argnums"], syms["gs"], syms["ans"], syms["args"], syms["kwargs"]
+            an, gs, a_, ar, kw_ = syms["#0"], syms["#1"], syms["#2"], syms["#3"], syms["#4"]
             if is_call_to(r, "autograd.core.sum_outgrads") and len(r.args) == 1 and r.args[0].op == "comp":
                 c = r.args[0]
                 z = c.src
@@ -1148,7 +1213,7 @@ def dispatch(ctx, world):
                     jm = sc3.parent.lookup("jvpmaker")
                     ok = zok and el.op == "call" and el.fn is jm and len(el.args) == 5 and e_an(el.args[0]) and e_g(el.args[1]) and el.args[2] is a_ and el.args[3] is ar and el.args[4] is kw_
         else:
-            an = syms["argnums"]
+            an = syms["#0"]
             vm = sc3.parent.lookup("vjpmaker")
             if r.op == "closure":
                 g2 = T("sym", name="g", role="g")
@@ -1159,7 +1224,7 @@ def dispatch(ctx, world):
                         src = el.fn.src
                         if src.op == "comp" and src.src is an and src.get("kind") == "ListComp":
                             mk = strip_seq(src.elt)
-                            ok = mk.op == "call" and mk.fn is vm and len(mk.args) == 2 and mk.args[0].op == "iterelem" and mk.args[0].src is an and mk.args[1].op == "star" and mk.args[1].x is syms["args"]
+                            ok = mk.op == "call" and mk.fn is vm and len(mk.args) == 2 and mk.args[0].op == "iterelem" and mk.args[0].src is an and mk.args[1].op == "star" and mk.args[1].x is syms["*"]
         if ok:
             ctx.ob("A13.align", f"{path}: each argnum paired with its own rule / tangent in argnums order", True, loc3)
         else:
@@ -1167,7 +1232,16 @@ def dispatch(ctx, world):
     # sum_outgrads = reduce(add_outgrads, gs, None)[0]
     r, syms, m4, node4, sc4 = eval_function(world, CORE, "sum_outgrads")
     r = strip_seq(r)
-    ok = r.op == "sub" and r.idx.op == "const" and r.idx.value == 0 and is_call_to(r.obj, "functools.reduce") and len(r.obj.args) == 3 and r.obj.args[0].op == "ref" and r.obj.args[0].ref.qual == "autograd.core.add_outgrads" and r.obj.args[1] is syms["gs"] and r.obj.args[2].op == "const" and r.obj.args[2].value is None
+    ok = False
+    if r.op == "sub" and r.idx.op == "const" and r.idx.value == 0:
+        acc = r.obj
+        if is_call_to(acc, "functools.reduce"):
+            ok = len(acc.args) == 3 and acc.args[0].op == "ref" and acc.args[0].ref.qual == "autograd.core.add_outgrads" and acc.args[1] is syms["#0"] and acc.args[2].op == "const" and acc.args[2].value is None
+        elif acc.op == "loop" and acc.get("it") is syms["#0"]:
+            # total = None; for g in gs: total = add_outgrads(total, g)
+            nx = acc.next
+            me_ = lambda t: t.op == "loopvar" and t.name == acc.name and t.node is acc.node
+            ok = acc.init is not None and acc.init.op == "const" and acc.init.value is None and is_call_to(nx, "autograd.core.add_outgrads") and len(nx.args) == 2 and not nx.kw and me_(nx.args[0]) and nx.args[1].op == "iterelem" and nx.args[1].src is syms["#0"]
     if ok:
         ctx.ob("A13.align", "sum_outgrads = reduce(add_outgrads, gs, None)[0]", True, loc_of(m4, node4))
     else:
